@@ -34,6 +34,8 @@ from hv import Case
 
 # the other agent adjusts this list when Honeycomb/Props/C05.lean changes — single place
 REQUIRED_THEOREMS = [
+        # Props/C04Gen.lean: the translated AttrSparseVec::merge / split ARE the model's mergeS / splitS (program equality)
+        "C04_gen_merge_dispatch", "C04_gen_split_dispatch", "C04_gen_mergeS", "C04_gen_splitS",
     "C05_oneSew3_topology", "C05_twoSew3_topology", "C05_threeSew3_topology",
     "C05_oneUnsew3_topology", "C05_twoUnsew3_topology", "C05_threeUnsew3_topology",
     "C05_links_keep_data", "C05_oneSew3_effect", "C05_oneUnsew3_effect",
@@ -51,7 +53,9 @@ REQUIRED_THEOREMS = [
 ]
 
 SPEC = {
-    "lean_modules": ["Honeycomb.Props.C05", "Honeycomb.Props.C05Cells", "Honeycomb.Props.C05Cells2", "Honeycomb.Props.C05Succ", "Honeycomb.Props.C05Cells3", "Honeycomb.Props.C05SuccLaw", "Honeycomb.Props.C05Cells3Data"],
+    "lean_modules": ["Honeycomb.Props.C05", "Honeycomb.Props.C05Cells", "Honeycomb.Props.C05Cells2", "Honeycomb.Props.C05Succ", "Honeycomb.Props.C05Cells3", "Honeycomb.Props.C05SuccLaw", "Honeycomb.Props.C05Cells3Data", "Honeycomb.Props.C04Gen"],
+    # Gen/AttrMoves.lean is re-translated from attributes/collections.rs before every build
+    "gen": ["attrs"],
     "required_theorems": REQUIRED_THEOREMS,
     "trusted_base": [
         "Lean 4.33 kernel; axioms propext, Classical.choice, Quot.sound only",
